@@ -2,12 +2,16 @@
 class CompilerError(Exception):
     '''Error thrown during compilation.'''
 
-    def __init__(self, filename, ctx, msg):
+    def __init__(self, filename, ctx, msg, line=None, column=None):
         '''filename is the filename in which the error occured, ctx is an ANTLR
-        context, and msg is the error message.'''
+        context, and msg is the error message. If there is no context (ctx is
+        None), the position is given by line and column.'''
         self.filename = filename
-        self.line = ctx.start.line
-        self.column = ctx.start.column
+        if ctx is not None:
+            line = ctx.start.line
+            column = ctx.start.column
+        self.line = line
+        self.column = column
         self.message = msg
 
     def __str__(self):
